@@ -66,6 +66,9 @@ type parseContext struct {
 	lexer.Dispenser
 	nesting  int
 	snippets map[string][]Node
+
+	// expandedNodes is the amount of nodes processed by expandImports so far.
+	expandedNodes int
 	macros   map[string][]string
 
 	fileLocation string
